@@ -250,6 +250,23 @@ def run_c17(tier, seed, workdir):
             rm = r.below(size)
             ops.append({'rm_model': rm})
         cases.append({'id': f"r{g}", 'cfg': {'keep': g % 2 == 0, 'backend': 'sqlite' if g % 4 >= 2 else 'mem'}, 'models': models, 'procs': procs, 'ops': ops, 'rm': rm})
+    # processes that run to their end while they are not in the cache: started in a burst behind the held scheduler,
+    # some of them dropped from the cache before they run (what a small cache does to a burst of starts)
+    auto = {'id': 'w', 'steps': [{'id': 'n1', 'acts': [{'id': 'n2', 'key': 'n2', 'uses': 'acts.core.msg'}]}, {'id': 'n3', 'acts': [{'id': 'n4', 'key': 'n4', 'uses': 'acts.core.msg'}]}], 'inputs': {}, 'outputs': {}}
+    for g in range(4 if tier == 'quick' else 24):
+        size = 2 + r.below(4)
+        pids = [f"p{i}" for i in range(size)]
+        ev = [p for p in pids if r.chance(60)] or [pids[0]]
+        ops = [{'burst': [{'start': 0, 'pid': p} for p in pids], 'evict': ev}] + [dict(p=p, t=r.below(4), a='next', o={}, after=True) for p in pids]
+        cases.append({'id': f"b{g}", 'cfg': {'keep': g % 4 == 3, 'backend': 'sqlite' if g % 2 else 'mem'}, 'models': [auto], 'procs': {p: 0 for p in pids}, 'ops': ops, 'rm': None})
+    # a process that was called by another one is retained / dropped like any other
+    for g in range(4 if tier == 'quick' else 24):
+        child = child_model(r, 0, 1)
+        child['id'] = 'c'
+        parent = {'id': 'w', 'steps': [{'id': 'n1', 'acts': [{'id': 'n2', 'key': 'n2', 'uses': 'acts.core.subflow', 'params': {'to': f"m-s{g}-1", 'options': {'pid': 'c1', 'k3': 1}}}]}], 'inputs': {}, 'outputs': {}}
+        ops = [{'start': 0, 'pid': 'p', 'vars': {}}, dict(p='c1', t=2, a=r.pick(['next', 'next', 'error', 'abort']), o={'ecode': 'e2'}),
+               dict(p='c1', t=2, a='next', o={}, after=True), dict(p='p', t=2, a='next', o={}, after=True)]
+        cases.append({'id': f"s{g}", 'cfg': {'keep': g % 4 == 3, 'backend': 'sqlite' if g % 2 else 'mem'}, 'models': [parent, child], 'procs': {'p': 0, 'c1': 1}, 'ops': ops, 'rm': None})
     got = run_multi(cases, os.path.join(workdir, 'run'))
     obs_path = os.path.join(workdir, 'obs.txt')
     keys = {}
@@ -321,7 +338,9 @@ def child_model(r, depth, tag):
     if r.chance(30):
         outs['k5'] = None
     acts = [{'id': 'n2', 'key': 'n2', 'uses': 'acts.core.irq'}]
-    return {'id': f'c{tag}', 'steps': [{'id': 'n1', 'acts': acts}], 'inputs': {}, 'outputs': outs}
+    # the called model may declare a default for an input the call passes: the call's value wins
+    ins = {'k3': 90 + r.below(9)} if r.chance(40) else {}
+    return {'id': f'c{tag}', 'steps': [{'id': 'n1', 'acts': acts}], 'inputs': ins, 'outputs': outs}
 
 
 def run_c15(tier, seed, workdir):
@@ -333,6 +352,11 @@ def run_c15(tier, seed, workdir):
         depth = 1 + r.below(3)
         missing = r.chance(8)
         ending = r.pick(['next', 'next', 'error', 'abort', 'skip', 'submit', 'none'])
+        # one case in eight: the calling act is closed from the side (a sibling irq in the same parallel block is skipped /
+        # aborted / failed by the client) while the child still runs; the child ends afterwards and its return comes late
+        forced = r.chance(12)
+        if forced:
+            depth, missing, ending = 1, False, r.pick(['next', 'error', 'abort', 'skip'])
         # chain: p calls c1 calls c2 ... ; the deepest one has the irq act the client answers
         models = []
         procs = {}
@@ -350,14 +374,19 @@ def run_c15(tier, seed, workdir):
                 if r.chance(60):
                     acts.append({'id': 'n3', 'key': 'n3', 'uses': 'acts.core.msg'})
                 steps = [{'id': 'n1', 'acts': acts}]
-                if r.chance(30):
+                if forced:
+                    call = {k: v for k, v in call.items() if k not in ('id', 'key', 'outputs')}
+                    steps = [{'id': 'n1', 'acts': [{'id': 'n5', 'key': 'n5', 'uses': 'acts.core.block',
+                                                    'params': {'mode': 'parallel', 'acts': [call, {'uses': 'acts.core.irq'}]}}]},
+                             {'id': 'n6', 'acts': [{'id': 'n7', 'key': 'n7', 'uses': 'acts.core.irq'}]}]
+                elif r.chance(30):
                     # other activity in the parent while the child runs
                     steps = [{'id': 'n9', 'branches': [{'id': 'b1', 'steps': steps}, {'id': 'b2', 'steps': [{'id': 'n7', 'acts': [{'id': 'n8', 'key': 'n8', 'uses': 'acts.core.irq'}]}]}]}]
                 wf = {'id': f'w{lvl}', 'steps': steps, 'inputs': {}, 'outputs': {'k4': None} if r.chance(50) else {}}
             models.append(wf)
             procs[pid] = lvl
         ops = [{'start': 0, 'pid': 'p', 'vars': {}}]
-        plan[f"q{g}"] = dict(depth=depth, missing=missing, ending=ending, names=names, opts=opts)
+        plan[f"q{g}"] = dict(depth=depth, missing=missing, ending=ending, names=names, opts=opts, forced=forced, how=r.pick(['skip', 'skip', 'abort', 'error']))
         cases.append({'id': f"q{g}", 'cfg': {'keep': True}, 'models': models, 'procs': procs, 'ops': ops, 'ending': ending})
     # the answer to the deepest irq act is addressed by task index: learn it from a first run
     first = run_multi(cases, os.path.join(workdir, 'probe'))
@@ -367,6 +396,10 @@ def run_c15(tier, seed, workdir):
         lines = first.get(f"{c['id']}/{leaf}", [])
         irq = next((l.split(' ')[1] for l in lines if l.startswith('N ') and 'acts.core.irq' in l), None)
         side = next((l.split(' ')[1] for l in first.get(f"{c['id']}/p", []) if l.startswith('N ') and l.split(' ')[2] == 'n8'), None)
+        if pl['forced']:
+            gate = next((l.split(' ')[1] for l in first.get(f"{c['id']}/p", []) if l.startswith('N ') and 'acts.core.irq' in l), None)
+            if gate is not None:
+                c['ops'].append({'p': 'p', 't': int(gate), 'a': pl['how'], 'o': ({'ecode': 'e5'} if pl['how'] == 'error' else {})})
         if side is not None and r.chance(50):
             c['ops'].append({'p': 'p', 't': int(side), 'a': 'next', 'o': {}})
         if irq is not None and pl['ending'] != 'none':
@@ -400,6 +433,13 @@ def run_c15(tier, seed, workdir):
                 created = next((l for l in ch_lines if l.startswith('M 0 created ')), None)
                 want_in = "{" + ",".join(f"{k}:{v}" for k, v in sorted(pl['opts'].items())) + "}"
                 inputs_ok = 1 if (created is None or created.split(' ')[3] == want_in) else 0
+                stats['child_declares_the_input'] += int(bool(c['models'][lvl + 1].get('inputs')))
+                if pl['forced']:
+                    stats['forced_close'] += 1
+                    key = f"{c['id']}/{par}"
+                    keys[key] = c
+                    f.write(f"forced {key} act={','.join(s + '@' + t for s, t in ends) or '-'} inputs={inputs_ok}\n")
+                    continue
                 outs_ok = 1
                 unsat = 0
                 if child_end:
@@ -423,7 +463,8 @@ def run_c15(tier, seed, workdir):
         raise RuntimeError('driver_multi failed: ' + out[-300:])
     text = {1501: "the calling act was closed before the child process ended", 1502: "the calling act was not closed exactly once with the state the child's ending maps to",
             1503: "the calling act does not carry the child's outputs", 1504: "the child did not start with exactly the inputs of the call",
-            1505: "the parent's terminal event precedes the child's (or comes without it)", 1506: "a missing target model left the calling act open"}
+            1505: "the parent's terminal event precedes the child's (or comes without it)", 1506: "a missing target model left the calling act open",
+            1507: "a calling act closed from the side while the child ran was not closed exactly once (the late return wrote to it)"}
     violations, ok = problems('15', cases, got), 0
     obs = {l.split(' ')[1]: l for l in open(obs_path)}
     for l in out.splitlines():
